@@ -71,6 +71,20 @@ impl Prop for P {
             let _ = is_set;
             res.push(format!("{}/{}", g.map(|v| v.to_string()).unwrap_or("~".into()), c as u8));
         }
+        // the same lookups on the same content built under node caches that evict all the time:
+        // what a lookup returns depends on the content, never on how the builder's cache behaved
+        if ops.len() <= 300 {
+            for (r, c) in [(1usize, 1usize), (1, 2), (2, 2), (3, 3)] {
+                let o = exec_build("extend", "raw_loop", 0, r, c, &ops);
+                let fg = Fst::new(o.bytes.unwrap()).unwrap();
+                for (i, p) in probes.iter().enumerate() {
+                    let got = format!("{}/{}", fg.get(p).map(|o| o.value().to_string()).unwrap_or("~".into()), fg.contains_key(p) as u8);
+                    if got != res[i] {
+                        x = format!("built with a {}x{} node cache: probe {} gives {} but {} with the default cache", r, c, hex(p), got, res[i]);
+                    }
+                }
+            }
+        }
         let s = res.join(",");
         format!("S:{}\tM:{}\tX:{}", s, s, x)
     }
